@@ -32,7 +32,8 @@ class ThrowOnlySource(ClsSource):
 
 
 class BlockError(Exception):
-    pass
+    def __bool__(self):      # an exception is one whatever its truth value
+        return False
 
 
 class HSys:
@@ -135,7 +136,7 @@ class HSys:
             hid, how = a[1], a[3]
             cm = self.scopes.pop(hid)
             exc = None if how == "normal" else BlockError() if how == "raise" else Cancelled()
-            r = self.run(cm.__aexit__(type(exc) if exc else None, exc, None))
+            r = self.run(cm.__aexit__(type(exc) if exc is not None else None, exc, None))
             if r[0] != "done":
                 return ("raised", r[1])
             return ("ok", bool(r[1]))
